@@ -25,6 +25,7 @@ static int
 readname_loop(char *packet, int packetlen, char **src, char *dst, size_t length, size_t loop)
 {
 	char *dummy;
+	char *pend;
 	char *s;
 	char *d;
 	int len;
@@ -37,13 +38,17 @@ readname_loop(char *packet, int packetlen, char **src, char *dst, size_t length,
 	len = 0;
 	s = *src;
 	d = dst;
-	while(*s && len < length - 2) {
+	pend = packet + packetlen;
+	/* never look at bytes beyond the received packet */
+	while(s < pend && *s && len < length - 2) {
 		c = *s++;
 
 		/* is this a compressed label? */
 		if ((c & 0xc0) == 0xc0) {
+			if (s >= pend)
+				break;	/* second pointer byte is missing */
 			offset = (((s[-1] & 0x3f) << 8) | (s[0] & 0xff));
-			if (offset > packetlen) {
+			if (offset >= packetlen) {
 				if (len == 0) {
 					/* Bad jump first in packet */
 					return 0;
@@ -57,7 +62,7 @@ readname_loop(char *packet, int packetlen, char **src, char *dst, size_t length,
 			goto end;
 		}
 
-		while(c && len < length - 1) {
+		while(c && len < length - 1 && s < pend) {
 			*d++ = *s++;
 			len++;
 
@@ -66,6 +71,10 @@ readname_loop(char *packet, int packetlen, char **src, char *dst, size_t length,
 
 		if (len >= length - 1) {
 			break; /* We used up all space */
+		}
+
+		if (s >= pend) {
+			break; /* Label or name is cut off by end of packet */
 		}
 
 		if (*s != 0) {
